@@ -18,6 +18,8 @@ pub enum Beh {
     AlwaysGetBody(u64),
     Drop,
     Panic,
+    /// a response whose body is a file: (status, declared length, bytes on disk or None = file missing)
+    File(u16, u64, Option<usize>),
 }
 
 struct Shared {
@@ -82,6 +84,15 @@ fn handler(req: Request) -> Response {
         Beh::AlwaysGetBody(m) => Response::get_body_and_reprocess(m),
         Beh::Drop => Response::drop_connection(),
         Beh::Panic => panic!("scripted handler panic"),
+        Beh::File(code, declared, actual) => {
+            static SEQ: std::sync::atomic::AtomicU64 = std::sync::atomic::AtomicU64::new(0);
+            let p = super::c06::scratch_dir().join(format!("c04-resp-{}", SEQ.fetch_add(1, std::sync::atomic::Ordering::SeqCst)));
+            let _ = std::fs::remove_file(&p);
+            if let Some(n) = actual {
+                std::fs::write(&p, (0..n).map(|i| b'a' + (i % 26) as u8).collect::<Vec<u8>>()).unwrap();
+            }
+            Response::new(code).with_type(servlin::ContentType::OctetStream).with_body(servlin::ResponseBody::File(p, declared))
+        }
     }
 }
 
@@ -159,6 +170,8 @@ pub fn request_bytes(spec: &str) -> (Vec<u8>, String, Beh) {
                 f if f.starts_with('d') => out.extend_from_slice(format!("content-length: {}\r\n", &f[1..]).as_bytes()),
                 f if f.starts_with('f') => out.extend_from_slice(format!("content-length: {}\r\nexpect: 100-continue\r\n", &f[1..]).as_bytes()),
                 "v" => out.extend_from_slice(b"expect: 100-continue\r\n"),
+                // the client asks for a persistent connection explicitly
+                "K" => out.extend_from_slice(b"Connection: keep-alive\r\n"),
                 _ => {}
             }
             out.extend_from_slice(b"\r\n");
@@ -175,6 +188,11 @@ pub fn request_bytes(spec: &str) -> (Vec<u8>, String, Beh) {
         "g" => Beh::GetBody(beh[1..].parse().unwrap()),
         "a" => Beh::AlwaysGetBody(beh[1..].parse().unwrap()),
         "d" => Beh::Drop,
+        // F<code>-<declared>-<actual|m>
+        "F" => {
+            let parts: Vec<&str> = beh[1..].split('-').collect();
+            Beh::File(parts[0].parse().unwrap(), parts[1].parse().unwrap(), if parts[2] == "m" { None } else { Some(parts[2].parse().unwrap()) })
+        }
         _ => Beh::Panic,
     };
     (out, path.to_string(), b)
@@ -234,11 +252,25 @@ fn read_one_response(c: &mut TcpStream, acc: &mut Vec<u8>) -> bool {
 pub fn case(ctx: &mut Ctx, tag: &str, small: &str, cache: &str, schedule: &str, requests: &str) {
     let small_n: usize = small.parse().unwrap();
     let cache_b: u8 = cache.parse().unwrap();
-    let sched = schedule.to_string();
+    // `L0:` / `L1:` in front of the schedule: the application's logger is dead (receiver gone) / stalled (one-slot queue full, never drained)
+    let (logger_env, schedule_rest) = match schedule.split_once(':') { Some((l, r)) if l == "L0" || l == "L1" => (l, r), _ => ("", schedule) };
+    let logger_env = logger_env.to_string();
+    let sched = schedule_rest.to_string();
     let reqs = requests.to_string();
     let seed = ctx.seed ^ ctx.count;
     let obs = guard(move || {
         let srv = server(small_n, cache_b);
+        let _logger = match logger_env.as_str() {
+            "L1" => Some(super::c12::stalled_logger_guard()),
+            "L0" => {
+                let (tx, rx) = std::sync::mpsc::sync_channel::<servlin::log::internal::LogEvent>(1);
+                let g = servlin::log::set_global_logger(tx).expect("logger");
+                let (_tx2, rx2) = std::sync::mpsc::sync_channel::<servlin::log::internal::LogEvent>(1);
+                drop(rx);
+                Some((g, rx2))
+            }
+            _ => None,
+        };
         let specs: Vec<(Vec<u8>, String, Beh)> = reqs.split(';').filter(|x| !x.is_empty()).map(request_bytes).collect();
         {
             let mut g = shared().lock().unwrap();
@@ -325,7 +357,9 @@ pub fn case(ctx: &mut Ctx, tag: &str, small: &str, cache: &str, schedule: &str, 
                 // the upload is under way; then every thread of the blocking pool is taken by a slow handler of another
                 // connection; then the client abandons the upload: its file must go although no pool thread is free
                 let n: usize = s[4..].parse::<usize>().unwrap().min(all.len());
-                let _ = client.write_all(&all[..n]);
+                // part of the bytes before the pool is saturated, the rest after it (the upload makes progress meanwhile)
+                let n1 = n - (n / 3).min(20_000);
+                let _ = client.write_all(&all[..n1]);
                 std::thread::sleep(Duration::from_millis(40));
                 { busy_gate().0.lock().unwrap().1 = false; }
                 let addr = srv.addr;
@@ -341,6 +375,8 @@ pub fn case(ctx: &mut Ctx, tag: &str, small: &str, cache: &str, schedule: &str, 
                     let deadline = std::time::Instant::now() + Duration::from_secs(5);
                     while g.0 < 8 && std::time::Instant::now() < deadline { g = cv.wait_timeout(g, Duration::from_millis(50)).unwrap().0; }
                 }
+                let _ = client.write_all(&all[n1..n]);
+                std::thread::sleep(Duration::from_millis(15));
                 let _ = client.shutdown(Shutdown::Write);
                 let mut left = count_files(&srv.cache);
                 for _ in 0..400 {
@@ -444,7 +480,10 @@ pub fn run(ctx: &mut Ctx) {
             let beh = match rng.below(14) {
                 0 => "n404".to_string(), 1 => "n500".to_string(), 2 => "d".to_string(), 3 => "p".to_string(),
                 4 | 5 => format!("g{}", *rng.pick(&[0u64, 10, 150, 5000, 1_000_000])), 6 => "a1000".to_string(),
-                7 => "n201".to_string(), _ => "n200".to_string(),
+                7 => "n201".to_string(),
+                // file-backed response bodies: intact, shorter than declared, longer, missing (only after a request without upload)
+                8 if kind < 3 || kind == 11 => format!("F200-{}", *rng_pick(&["40-40", "900-300", "40-0", "40-m", "40-60", "70000-70000", "70000-100", "40-39"])),
+                _ => "n200".to_string(),
             };
             let spec = match kind {
                 0 | 1 | 2 => format!("GET:/r{j}:n::{beh}"),
@@ -521,6 +560,16 @@ pub fn run_c20w(ctx: &mut Ctx) {
             }
         }
     }
+    // an incomplete request, then the client half-closes and keeps reading: the answer is the 400 of `Truncated`
+    for (req, cut) in [("GET:/t1:n::n200", 9usize), ("GET:/t2:n::n200", 24), ("POST:/t3:k:30313233343536373839:n200", 50), ("GET:/ok:n::n200;GET:/t4:n::n200", 40)] {
+        idx += 1;
+        if ctx.mine(idx) { case(ctx, "c04", "100", "1", &format!("cut{cut}"), req); }
+    }
+    // 5xx answers to requests that ask for a persistent connection explicitly
+    for beh in ["n500", "n503", "p", "n200"] {
+        idx += 1;
+        if ctx.mine(idx) { case(ctx, "c04", "100", "1", "single", &format!("GET:/k{idx}:K::{beh};GET:/after:n::n200")); }
+    }
     for beh in ["n500", "n503", "n599", "n404", "p", "g5", "a9"] {
         for (framing, body) in [("n", String::new()), ("k", enc(b"0123456789")), ("u", enc(b"0123456789"))] {
             idx += 1;
@@ -529,6 +578,22 @@ pub fn run_c20w(ctx: &mut Ctx) {
                 case(ctx, "c04", "5", cache, "single", &format!("POST:/h{idx}:{framing}:{body}:{beh};GET:/after:n::n200"));
             }
         }
+    }
+}
+
+/// c01l: requests that cannot be read (and ordinary ones) while the application's logger has stopped: the connection task
+/// must still answer with the error's response — never die silently.
+pub fn run_c01l(ctx: &mut Ctx) {
+    let mut idx = 0u64;
+    for framing in ["x", "h", "l", "q", "z", "n"] {
+        for prefix in ["", "GET:/ok:n::n200;"] {
+            idx += 1;
+            if ctx.mine(idx) { case(ctx, "c04", "100", "1", "L0:single", &format!("{prefix}GET:/e{idx}:{framing}::n200")); }
+        }
+    }
+    for cut in [7usize, 20] {
+        idx += 1;
+        if ctx.mine(idx) { case(ctx, "c04", "100", "1", &format!("L0:cut{cut}"), "GET:/trunc:n::n200"); }
     }
 }
 
@@ -630,6 +695,12 @@ pub fn run_c10(ctx: &mut Ctx) {
                     let second = *rng.pick(&["", "-n200", "-p"]);
                     let req = format!("POST:/r0:{framing}:{body}:g1000000{second};GET:/r1:n::n200");
                     case(ctx, "c10", "100", "1", &format!("cut{cut}"), &req);
+                }
+                // … the same abandonment while the application's logger is stalled (its queue is full and nobody drains it)
+                idx += 1;
+                if ctx.mine(idx) && (ctx.thorough() || off == 1 || off == len - 1) {
+                    let req = format!("POST:/r0:{framing}:{body}:g1000000;GET:/r1:n::n200");
+                    case(ctx, "c10", "100", "1", &format!("L1:cut{cut}"), &req);
                 }
                 // … the same offsets, but the client goes away with a reset (socket error on the server's read) instead of a FIN
                 idx += 1;
